@@ -233,6 +233,69 @@ def rule_c08_completion(ctx):
                   loc=body_loc(rd), detail=[shape(o.ret) if o.ret else str(o.info) for o in outs][:5])
 
 
+def rule_read_forwarding(ctx):
+    """R08.5: the call layer adds nothing to a body read: unless the body is already complete (-> (0, 0), R08.4) it makes
+    exactly one reader call on the caller's own input and output and returns that call's result unchanged -- so the
+    counts proven for the readers (R08.1, R07.x) are the counts the caller sees; the flow layer forwards likewise"""
+    prog = ctx.prog
+    R = "R08.5"
+    rd = prog.find("Call::<RecvBody, B>::read")
+    if not ctx.require(rd, R, "entry", "Call::<RecvBody, B>::read"):
+        return
+    bad = []
+    n = 0
+    for variant in ("LengthDelimited", "Chunked", "CloseDelimited"):
+        I = _mk(prog, event_hook=call_recorder(r"BodyReader::read$"))
+        I.summarize = {"BodyReader::read"}
+        try:
+            outs = I.run(rd, [ref(CALL), ref(IN), ref(OUT)], lambda st, variant=variant: _reader_state(st, variant))
+        except (PathLimit, Unsupported) as e:
+            ctx.incomplete(R, "interp", str(e))
+            return
+        for o in outs:
+            if o.kind != "return":
+                continue
+            n += 1
+            evs = [e for e in o.state.events if e[0].endswith("BodyReader::read")]
+            if not evs:
+                if shape(o.ret) != "Ok({0:0,1:0})":
+                    bad.append("%s: returns %s without reading" % (variant, shape(o.ret)[:40]))
+                continue
+            if len(evs) != 1:
+                bad.append("%s: %d reader calls in one read (their counts are not added up for the caller)" % (variant, len(evs)))
+                continue
+            a = evs[0][1]
+            if a[1] != ("term", ("in", "input")) or a[2] != ("term", ("in", "output")):
+                bad.append("%s: the reader is not given the caller's whole input / output" % variant)
+            if "stop_on_chunk_boundary" not in repr(a[3]):
+                bad.append("%s: the boundary-stop flag passed to the reader is %s" % (variant, repr(a[3])[:80]))
+            r = o.ret.get(())
+            if not (r and r[0] == "term" and r[1][0] == "call" and r[1][1] == "BodyReader::read"):
+                bad.append("%s: the returned counts are not the reader's result (%s)" % (variant, shape(o.ret)[:60]))
+    ctx.check(n >= 3 and not bad, R, "call-layer", "a body read makes one reader call on the caller's input and output and returns its counts unchanged "
+              "(%d paths)" % n, loc=body_loc(rd), detail=sorted(set(bad))[:4])
+    fr = prog.find("Flow::<B, RecvBody>::read")
+    if ctx.require(fr, R, "flow-entry", "Flow::<B, RecvBody>::read"):
+        I = _mk(prog, event_hook=call_recorder(r"Call::<RecvBody, B>::read$"))
+        I.summarize = {"Call::<RecvBody, B>::read"}
+        F = ("OBJ", "flow")
+
+        def initf(st):
+            st.write_leaf(F, (), ("term", ("in", "flow")))
+            st.write_leaf(F, (("f", "inner"), ("f", "call"), ("$v",)), ("variant", "RecvBody"))
+            st.write_leaf(IN, (), ("term", ("in", "input")))
+            st.write_leaf(OUT, (), ("term", ("in", "output")))
+        outs = I.run(fr, [ref(F), ref(IN), ref(OUT)], initf)
+        okf = bool(outs)
+        for o in outs:
+            evs = [e for e in o.state.events if e[0].endswith("::read")]
+            r = o.ret.get(()) if o.kind == "return" else None
+            if o.kind != "return" or len(evs) != 1 or evs[0][1][1] != ("term", ("in", "input")) or evs[0][1][2] != ("term", ("in", "output")) \
+                    or not (r and r[0] == "term" and r[1][0] == "call"):
+                okf = False
+        ctx.check(okf, R, "flow-layer", "Flow<RecvBody>::read forwards input, output and the result unchanged", loc=body_loc(fr))
+
+
 # ================================================================================ C04
 
 def _writer_state(st, ended=0, left_iv=None):
@@ -451,7 +514,7 @@ def rule_c08_close_marks_connection(ctx):
     rules_c10.rule_verdict(ctx)
 
 
-C08_RULES = [rule_c08_readers, rule_c08_completion, rule_c08_close_marks_connection]
+C08_RULES = [rule_c08_readers, rule_c08_completion, rule_read_forwarding, rule_c08_close_marks_connection]
 def rule_c04_exact_min(ctx):
     """`each body write copies min(input, output space, remaining)`: the exactness half (nothing held back) is R18.5, shared"""
     from .rules_c18 import rule_sized_exact
